@@ -154,24 +154,6 @@ struct World
         const bool changed = old_bits != new_bits;
         ctx.obs += mc::fmt( " cb=%d", cb.count );
         ctx.cls( mc::fmt( "write %s: %d->%d callback x%d%s", p.name, old_bits, new_bits, cb.count, ( k / 4 != 0 ) ? " (2nd+ byte)" : "" ) );
-        if ( changed && cb.count == 0 )
-            ctx.fail( "callback:missing-on-change", mc::fmt( "%s: stored value of CCCD %d changed %d -> %d, callback not invoked", name, k, old_bits, new_bits ) );
-        else if ( !changed && cb.count != 0 )
-            ctx.fail( "callback:invoked-without-change", mc::fmt( "%s: write of %s left CCCD %d at %d, callback invoked %d times", name, p.name, k, old_bits, cb.count ) );
-        else if ( cb.count > 1 )
-            ctx.fail( "callback:invoked-more-than-once", mc::fmt( "%s: one write, callback invoked %d times", name, cb.count ) );
-        else if ( cb.count == 1 )
-        {
-            for ( int i = 0; i != N; ++i )
-                if ( cb.bits[ i ] != ref.bits[ c ][ i ] )
-                {
-                    ctx.fail( mc::fmt( "callback:wrong-configuration-presented:%s", i == k ? "written-cccd" : "other-cccd" ),
-                              mc::fmt( "%s: callback after write on connection %d: characteristic %d is presented as %d, reference %d", name, c, i, cb.bits[ i ], ref.bits[ c ][ i ] ) );
-                    break;
-                }
-        }
-        if ( !ctx.fails.empty() ) return true;
-
         // read every CCCD on both connections
         for ( int rc = 0; rc != 2; ++rc )
         {
@@ -196,6 +178,23 @@ struct World
                 }
             }
         }
+        // callback invoked exactly once iff the stored value changed
+        if ( changed && cb.count == 0 )
+            ctx.fail( "callback:missing-on-change", mc::fmt( "%s: stored value of CCCD %d changed %d -> %d, callback not invoked", name, k, old_bits, new_bits ) );
+        else if ( !changed && cb.count != 0 )
+            ctx.fail( "callback:invoked-without-change", mc::fmt( "%s: write of %s left CCCD %d at %d, callback invoked %d times", name, p.name, k, old_bits, cb.count ) );
+        else if ( cb.count > 1 )
+            ctx.fail( "callback:invoked-more-than-once", mc::fmt( "%s: one write, callback invoked %d times", name, cb.count ) );
+        if ( !ctx.fails.empty() ) return true;
+        // the configuration handed to the callback is the one of the writing connection after the write
+        if ( cb.count == 1 )
+            for ( int i = 0; i != N; ++i )
+                if ( cb.bits[ i ] != ref.bits[ c ][ i ] )
+                {
+                    ctx.fail( mc::fmt( "callback:wrong-configuration-presented:%s", i == k ? "written-cccd" : "other-cccd" ),
+                              mc::fmt( "%s: callback after write on connection %d: characteristic %d is presented as %d, reference %d", name, c, i, cb.bits[ i ], ref.bits[ c ][ i ] ) );
+                    break;
+                }
         return true;
     }
 };
